@@ -31,6 +31,7 @@ func (e *Engine) mapLenComp() (string, string) { return "ML$", "(Array Int Int)"
 func (e *Engine) makeMap(st *State, x *ssa.MakeMap) {
 	mt := x.Type().Underlying().(*types.Map)
 	r := e.freshRef(st, "map")
+	e.notePrivType(r, x.Type())
 	_, _, mh, mhs := e.mapComps(mt)
 	ml, mls := e.mapLenComp()
 	h := e.heapGet(st, mh, mhs)
